@@ -87,7 +87,7 @@ MUTS = [
  # ---- C09
  ("C09", "splitn_2", E, "let parts = a.split(\"{}\").collect::<Vec<_>>();", "let parts = a.splitn(3, \"{}\").collect::<Vec<_>>();"),
  ("C09", "signal_is_success", E, "            Ok(status) => status.success(),\n", "            Ok(status) => status.success() || status.code().is_none(),\n"),
- ("C09", "execdir_full_path", E, "        let path_to_file = if self.exec_in_parent_dir {\n            if let Some(f) = file_info.path().file_name() {\n                Path::new(\".\").join(f)", "        let path_to_file = if self.exec_in_parent_dir {\n            if let Some(f) = file_info.path().file_name().filter(|_| file_info.depth() < 3) {\n                Path::new(\".\").join(f)", 0),
+ ("C09", "execdir_full_path", E, "        Some(Component::Normal(f)) => Path::new(\".\").join(f),", "        Some(Component::Normal(f)) if path.components().count() < 4 => Path::new(\".\").join(f),"),
  ("C09", "execdir_cwd_is_path", E, "                Some(parent) => {\n                    command.current_dir(parent);\n                }", "                Some(parent) => {\n                    command.current_dir(if file_info.file_type().is_dir() { file_info.path() } else { parent });\n                }"),
  ("C09", "spawn_error_true", E, "                writeln!(&mut stderr(), \"Failed to run {}: {}\", self.executable, e).unwrap();\n                false\n", "                writeln!(&mut stderr(), \"Failed to run {}: {}\", self.executable, e).unwrap();\n                e.kind() == std::io::ErrorKind::PermissionDenied\n"),
  # ---- C10
